@@ -473,13 +473,18 @@ TErrKnownStale ==
   /\ kf' = kf \cup {"C09-c"}
   /\ UNCHANGED <<pts, nodeOf, free, next, count, fault>> /\ Env /\ VersKeep
 
+\* a concurrent composite request with a sub-query on a property the schema does not have: refused
+TBadQuery ==
+  /\ IsEvent("BadQuery") /\ E.refused = 1
+  /\ UNCHANGED <<pts, nodeOf, free, next, count, fault, kf>> /\ Env /\ VersKeep
+
 \* environment steps with no effect on the abstract state (reopen, evict,
 \* switch to a cold copy): the model says nothing may change
 TQuiet == IsEvent("Quiet") /\ Obs
 
 TraceNext ==
   \/ TReset \/ TFault \/ TInsert \/ TInsertRace \/ TWriteRace \/ TUpdate \/ TDelete \/ TFork \/ TRestore \/ TCrash
-  \/ TCount \/ TGet \/ TFilter \/ TFlat \/ TVamana \/ TVamanaPair \/ TFlatPair \/ TCSearch \/ TErrKnown \/ TErrKnownStale \/ TText \/ TTextRepeat \/ TGraph \/ TVecKeys \/ TTextIx \/ TInvIx \/ TQuiet
+  \/ TCount \/ TGet \/ TFilter \/ TFlat \/ TVamana \/ TVamanaPair \/ TFlatPair \/ TCSearch \/ TErrKnown \/ TErrKnownStale \/ TBadQuery \/ TText \/ TTextRepeat \/ TGraph \/ TVecKeys \/ TTextIx \/ TInvIx \/ TQuiet
 
 TraceSpec == TraceInit /\ [][TraceNext]_vars
 
